@@ -47,6 +47,9 @@ type rawClient struct {
 	connAt  time.Duration
 	readErr error
 	eofAt   time.Duration
+	// abandoned: the client reset its connection (crashed peer); nothing can be delivered to it
+	abandoned   bool
+	abandonedAt time.Duration
 }
 
 type S struct {
@@ -86,8 +89,11 @@ func (s *S) Run(c *scen.Ctx) {
 	simnet.Cfg.Fragment = simrt.Draw(2, "c12.frag") == 1
 	simnet.Cfg.Delay = simrt.Draw(3, "c12.delay") == 2
 	tars.VerifFreshApp()
+	// a handle time-out bounds a handler once it runs, not the time a request waits for a worker
+	handleTO := []time.Duration{0, 0, 300 * time.Millisecond, time.Second}[simrt.Draw(4, "c12.handleto")]
+	c.Describe("handle_timeout", handleTO.String())
 	conf := &transport.TarsServerConf{Proto: "tcp", Address: addr, MaxInvoke: int32(s.pool), QueueCap: qcap,
-		AcceptTimeout: 500 * time.Millisecond, IdleTimeout: 600 * time.Second}
+		AcceptTimeout: 500 * time.Millisecond, IdleTimeout: 600 * time.Second, HandleTimeout: handleTO}
 	srv, _ := tars.VerifNewServer(&disp{s}, nil, true, conf)
 	if err := srv.Listen(); err != nil {
 		c.Inconclusive("listen: %v", err)
@@ -116,6 +122,11 @@ func (s *S) Run(c *scen.Ctx) {
 			}
 			reqs = append(reqs, &refcodec.Request{Version: 1, PacketType: pt, RequestID: nextID, Servant: "App.Srv.Obj", Func: "work",
 				Buffer: []byte{byte(d >> 8), byte(d), byte(i), byte(k)}, Timeout: 60000, Context: map[string]string{}, Status: map[string]string{}})
+		}
+		abandonAfter := time.Duration(-1)
+		if ncli > 1 && simrt.Draw(5, "c12.abandon") == 4 {
+			// this client dies (connection reset) some time after sending, possibly with handlers still running for it
+			abandonAfter = time.Duration(simrt.Draw(600, "c12.abandonat")) * time.Millisecond
 		}
 		late := simrt.Draw(3, "c12.late") // requests sent after a pause (possibly during the drain window)
 		pause := time.Duration(simrt.Draw(700, "c12.pause")) * time.Millisecond
@@ -149,6 +160,15 @@ func (s *S) Run(c *scen.Ctx) {
 				s.mu.Lock()
 				rc.sent = append(rc.sent, r)
 				s.mu.Unlock()
+			}
+			if abandonAfter >= 0 {
+				simrt.Sleep(abandonAfter)
+				c.Count("fault.client_resets_connection", 1)
+				s.mu.Lock()
+				rc.abandoned, rc.abandonedAt = true, simrt.Elapsed()
+				s.mu.Unlock()
+				simrt.Event("client %d resets its connection", rc.idx)
+				rc.conn.Pair.Reset()
 			}
 		})
 	}
@@ -231,7 +251,7 @@ func (s *S) Check(c *scen.Ctx, res *simrt.Result) {
 				if rq.PacketType == 1 {
 					continue
 				}
-				if answered[rq.RequestID] == 0 && !clientClosed {
+				if answered[rq.RequestID] == 0 && !clientClosed && !rc.abandoned {
 					missing = append(missing, rq.RequestID)
 				}
 				if answered[rq.RequestID] > 1 {
@@ -248,7 +268,7 @@ func (s *S) Check(c *scen.Ctx, res *simrt.Result) {
 			}
 		}
 		if serverClosed {
-			if rc.connAt+time.Millisecond < s.sdStart && !gotNotice && (pr.Client.ClosedAt < 0 || pr.Client.ClosedAt > s.sdStart) {
+			if rc.connAt+time.Millisecond < s.sdStart && !gotNotice && !rc.abandoned && (pr.Client.ClosedAt < 0 || pr.Client.ClosedAt > s.sdStart) {
 				c.Fail("C12", "no-reconnect-notice", poolKey, "client %d was connected (since %v) when Shutdown was called at %v and its connection was closed by the server at %v without the reconnect notification", rc.idx, rc.connAt, s.sdStart, pr.Server.ClosedAt)
 			}
 			if gotNotice {
